@@ -39,6 +39,20 @@ struct Inner {
     out: String,
     n: usize,
     cm: u8,
+    /// print transform matrices (bit patterns) on `T` / `g` tokens (fill-optimisation oracle jobs only)
+    mx: bool,
+}
+
+fn mx_hex(t: &Transform) -> String {
+    [t.xx, t.yx, t.xy, t.yy, t.dx, t.dy].iter().map(|v| format!("{:08x}", v.to_bits())).collect()
+}
+
+fn mx_parse(h: &str) -> Option<Transform> {
+    if h.len() != 48 {
+        return None;
+    }
+    let f = |i: usize| u32::from_str_radix(&h[i * 8..i * 8 + 8], 16).ok().map(f32::from_bits);
+    Some(Transform { xx: f(0)?, yx: f(1)?, xy: f(2)?, yy: f(3)?, dx: f(4)?, dy: f(5)? })
 }
 
 impl Inner {
@@ -112,8 +126,12 @@ fn strip_payloads(resp: &str) -> String {
 
 macro_rules! common_methods {
     () => {
-        fn push_transform(&mut self, _t: Transform) {
-            self.0.ev("T")
+        fn push_transform(&mut self, t: Transform) {
+            if self.0.mx {
+                self.0.ev(&format!("T:{}", mx_hex(&t)))
+            } else {
+                self.0.ev("T")
+            }
         }
         fn pop_transform(&mut self) {
             self.0.ev("t")
@@ -150,7 +168,12 @@ struct RecFg(Inner);
 impl ColorPainter for RecFg {
     common_methods!();
     fn fill_glyph(&mut self, g: GlyphId, bt: Option<Transform>, b: Brush<'_>) {
-        self.0.ev(&format!("g{}:{}:{}", g.to_u32(), bt.is_some() as u8, brush_tok(&b)))
+        if self.0.mx {
+            let m = bt.as_ref().map(mx_hex).unwrap_or_else(|| "0".to_string());
+            self.0.ev(&format!("g{}:{}:{}", g.to_u32(), m, brush_tok(&b)))
+        } else {
+            self.0.ev(&format!("g{}:{}:{}", g.to_u32(), bt.is_some() as u8, brush_tok(&b)))
+        }
     }
 }
 
@@ -160,7 +183,7 @@ impl ColorPainter for RecDefault {
     common_methods!();
 }
 
-fn paint_case(font: &[u8], gid: u32, fg: u8, cm: u8, v0: bool) -> String {
+fn paint_case(font: &[u8], gid: u32, fg: u8, cm: u8, v0: bool, mx: bool) -> String {
     let Ok(font) = FontRef::new(font) else { return "nofont".into() };
     let fmt = if v0 { ColorGlyphFormat::ColrV0 } else { ColorGlyphFormat::ColrV1 };
     let glyph = match catch(|| font.color_glyphs().get_with_format(GlyphId::new(gid), fmt)) {
@@ -168,7 +191,7 @@ fn paint_case(font: &[u8], gid: u32, fg: u8, cm: u8, v0: bool) -> String {
         Ok(None) => return "noglyph".into(),
         Err(m) => return format!("panic:{}", m.replace([' ', '\n'], "_")),
     };
-    let inner = Inner { out: String::new(), n: 0, cm };
+    let inner = Inner { out: String::new(), n: 0, cm, mx };
     let (res, inner) = if fg != 0 {
         let mut p = RecFg(inner);
         let r = catch(|| glyph.paint(LocationRef::default(), &mut p));
@@ -217,9 +240,10 @@ fn child_main() {
         let fg: u8 = t[2].parse().unwrap_or(0);
         let cm: u8 = t[3].parse().unwrap_or(0);
         let v0 = t[4] == "1";
-        let a = paint_case(&font, gid, fg, cm, v0);
+        let mx = t[4] == "2";
+        let a = paint_case(&font, gid, fg, cm, v0, mx);
         // determinism: painting again gives the identical outcome
-        let b = paint_case(&font, gid, fg, cm, v0);
+        let b = paint_case(&font, gid, fg, cm, v0, mx);
         let mut o = stdout.lock();
         if a == b {
             let _ = writeln!(o, "{a}");
@@ -241,6 +265,8 @@ struct Job {
     fg: u8,
     cm: u8,
     v0: bool,
+    /// v1 with transform matrices printed
+    mx: bool,
 }
 
 struct Worker {
@@ -312,7 +338,7 @@ fn run_jobs(jobs: &[Job], cap: Duration, nworkers: usize) -> Vec<String> {
                     worker = Some(spawn_worker());
                 }
                 let wk = worker.as_mut().unwrap();
-                let line = format!("{} {} {} {} {}\n", j.font_hex, j.gid, j.fg, j.cm, j.v0 as u8);
+                let line = format!("{} {} {} {} {}\n", j.font_hex, j.gid, j.fg, j.cm, if j.mx { 2 } else { j.v0 as u8 });
                 let wrote = wk.stdin.write_all(line.as_bytes()).and_then(|_| wk.stdin.flush());
                 let resp = if wrote.is_err() {
                     let t = exit_text(&mut wk.child);
@@ -1250,7 +1276,15 @@ fn gen_small_trees(max_size: usize, rng: &mut Rng, cases: &mut Vec<Case>) {
             T::Solid => wc::Paint::solid(1, F2Dot14::from_f32(1.0)),
             T::NoFill => wc::Paint::sweep_gradient(wc::ColorLine::new(wc::Extend::Pad, 0, vec![]), FWord::new(0), FWord::new(0), F2Dot14::from_f32(0.0), F2Dot14::from_f32(1.0)),
             T::Ref(g) => wc::Paint::colr_glyph(GlyphId16::new(*g)),
-            T::Tr(a) => wc::Paint::rotate(build(a, layers), F2Dot14::from_f32(0.25)),
+            T::Tr(a) => {
+                let c = build(a, layers);
+                // distinct matrices per transform paint (products are order sensitive)
+                match show(a).len() % 3 {
+                    0 => wc::Paint::rotate(c, F2Dot14::from_f32(0.25)),
+                    1 => wc::Paint::translate(c, FWord::new(10), FWord::new(-3)),
+                    _ => wc::Paint::scale(c, F2Dot14::from_f32(0.5), F2Dot14::from_f32(1.5)),
+                }
+            }
             T::Gl(a) => wc::Paint::glyph(build(a, layers), GlyphId16::new(20)),
             T::L1(a) => {
                 let p = build(a, layers);
@@ -1272,11 +1306,17 @@ fn gen_small_trees(max_size: usize, rng: &mut Rng, cases: &mut Vec<Case>) {
             let mut layers = vec![];
             let root = build(t, &mut layers);
             // gid 2: plain solid colour glyph without clip box; gid 3: transform(solid) with clip box
-            let roots = vec![
+            let mut roots = vec![
                 (1u16, root),
                 (2u16, wc::Paint::solid(2, F2Dot14::from_f32(1.0))),
                 (3u16, wc::Paint::translate(wc::Paint::solid(3, F2Dot14::from_f32(1.0)), FWord::new(1), FWord::new(1))),
             ];
+            // glyph 4: the child subtree of a top-level PaintGlyph on its own (reference for the
+            // fill_glyph-optimisation oracle)
+            if let T::Gl(a) = t {
+                let sub = build(a, &mut layers);
+                roots.push((4u16, sub));
+            }
             if let Some(colr) = build_colr(roots, layers, &[3], rng) {
                 cases.push(Case { family: "small-trees", label: format!("size={n} tree={}", show(t)), colr, gids: vec![1] });
             }
@@ -1338,7 +1378,7 @@ fn run_v0(rng: &mut Rng, n: usize, s: &mut Session, cap: Duration) {
         let font = Arc::new(hex(&font_of(&bytes)));
         for (g, first, num) in ranges {
             for fg in 0..2u8 {
-                jobs.push(Job { font_hex: font.clone(), gid: g as u32, fg, cm: 0, v0: true });
+                jobs.push(Job { font_hex: font.clone(), gid: g as u32, fg, cm: 0, v0: true, mx: false });
                 // the model's layer table: what Colr::v0_layer answers, re-read from the compiled bytes
                 let f = font_of(&bytes);
                 let fr = FontRef::new(&f).unwrap();
@@ -1387,6 +1427,84 @@ fn run_v0(rng: &mut Rng, n: usize, s: &mut Session, cap: Duration) {
             s.count("v0:range-out-of-bounds");
             s.oracle("v0-out-of-bounds-layer-is-error", r.starts_with("err:Parse"), input, || r.clone());
         }
+    }
+}
+
+/// `fill_glyph` optimisation oracle on the real code (theorem `C13Fill.fill_glyph_optimisation_sound` and
+/// its counterexamples): for every small tree `G(X)`, glyph 1 = PaintGlyph(20, X) painted by a client that
+/// overrides `fill_glyph` must draw what glyph 4 = X painted inside a glyph clip draws: per fill the same
+/// brush and the same transformation (bt = product of the transforms open at that fill).
+fn run_fillopt(cases: &[Case], s: &mut Session, cap: Duration) {
+    let mut jobs = vec![];
+    let mut idx = vec![];
+    for (ci, c) in cases.iter().enumerate() {
+        if c.family != "small-trees" || !c.label.contains("tree=G(") {
+            continue;
+        }
+        let font = Arc::new(hex(&font_of(&c.colr)));
+        jobs.push(Job { font_hex: font.clone(), gid: 1, fg: 1, cm: 0, v0: false, mx: true });
+        jobs.push(Job { font_hex: font, gid: 4, fg: 1, cm: 0, v0: false, mx: true });
+        idx.push(ci);
+    }
+    let resps = run_jobs(&jobs, cap, 8);
+    for (k, ci) in idx.iter().enumerate() {
+        let (opt, rf) = (&resps[2 * k], &resps[2 * k + 1]);
+        let c = &cases[*ci];
+        if !opt.starts_with("ok ") || !rf.starts_with("ok ") {
+            s.count("fillopt:skipped-not-ok");
+            continue;
+        }
+        let ot: Vec<&str> = opt.split(' ').skip(1).filter(|t| *t != "-").collect();
+        let rt: Vec<&str> = rf.split(' ').skip(1).filter(|t| *t != "-").collect();
+        let accepted = ot.iter().all(|t| t.starts_with('g'));
+        let plain = rt.iter().all(|t| t.starts_with('T') || *t == "t" || t.starts_with('F'));
+        if !accepted || !plain {
+            s.count("fillopt:skipped-not-accepted");
+            continue;
+        }
+        // reference draws
+        let mut stack: Vec<Transform> = vec![];
+        let mut popped = false;
+        let mut after_pop = false;
+        let mut ref_draws: Vec<(Option<String>, String)> = vec![];
+        for t in &rt {
+            if let Some(h) = t.strip_prefix("T:") {
+                if popped {
+                    after_pop = true;
+                }
+                if let Some(m) = mx_parse(h) {
+                    stack.push(m);
+                }
+            } else if *t == "t" {
+                stack.pop();
+                popped = true;
+            } else if let Some(b) = t.strip_prefix("F:") {
+                if popped {
+                    after_pop = true;
+                }
+                let prod = stack.iter().copied().reduce(|a, b| a * b).map(|m| mx_hex(&m));
+                ref_draws.push((prod, b.to_string()));
+            }
+        }
+        let opt_draws: Vec<(Option<String>, String)> = ot
+            .iter()
+            .map(|t| {
+                let mut it = t.splitn(3, ':');
+                let _g = it.next();
+                let m = it.next().unwrap_or("0");
+                let b = it.next().unwrap_or("");
+                (if m == "0" { None } else { Some(m.to_string()) }, b.to_string())
+            })
+            .collect();
+        let sig = if after_pop { "brush-transform-survives-pop_transform" } else { "pops-last" };
+        s.count(&format!("fillopt:checked:{sig}"));
+        let ok = ref_draws == opt_draws;
+        s.oracle(
+            "fill_glyph-optimisation-draws-what-the-unoptimised-traversal-draws",
+            ok,
+            || format!("family=small-trees-fillopt sig={sig} {} colr={}", c.label, hex(&c.colr)),
+            || format!("PaintGlyph(20, X) optimised: {opt} /// X on its own (glyph 4): {rf}"),
+        );
     }
 }
 
@@ -1538,7 +1656,7 @@ fn run(cfg: &Config, s: &mut Session) {
                 combos.truncate(if has_cg { 3 } else { 1 });
             }
             for (fg, cm) in combos {
-                jobs.push(Job { font_hex: font_hex.clone(), gid, fg, cm, v0: false });
+                jobs.push(Job { font_hex: font_hex.clone(), gid, fg, cm, v0: false, mx: false });
                 metas.push(Meta { case: ci, gid, fg, cm, req_tail: tail.clone(), cyclic, longest, has_cg });
             }
         }
@@ -1642,6 +1760,7 @@ fn run(cfg: &Config, s: &mut Session) {
         }
     }
 
+    run_fillopt(&cases, s, cap);
     run_v0(&mut rng, if thorough { 3000 } else { 400 }, s, cap);
     run_blowup(&mut rng, s, thorough);
 }
@@ -1657,7 +1776,7 @@ fn run_blowup(rng: &mut Rng, s: &mut Session, thorough: bool) {
         let Some(colr) = build_chain(&kinds, solid.clone(), rng) else { continue };
         let font = Arc::new(hex(&font_of(&colr)));
         let t = std::time::Instant::now();
-        let r = run_jobs(&[Job { font_hex: font, gid: 1, fg: 1, cm: 0, v0: false }], Duration::from_secs(60), 1);
+        let r = run_jobs(&[Job { font_hex: font, gid: 1, fg: 1, cm: 0, v0: false, mx: false }], Duration::from_secs(60), 1);
         // the child paints twice (determinism check)
         timings.push(format!("d={d}: {:.0} ms", t.elapsed().as_secs_f64() * 1000.0 / 2.0));
         let input = || format!("family=glyphchain depth={d} bytes={} colr={}", colr.len(), hex(&colr));
@@ -1681,7 +1800,7 @@ fn run_blowup(rng: &mut Rng, s: &mut Session, thorough: bool) {
     let kinds: Vec<u8> = vec![b'G'; d];
     if let Some(colr) = build_chain(&kinds, solid, rng) {
         let font = Arc::new(hex(&font_of(&colr)));
-        let r = run_jobs(&[Job { font_hex: font, gid: 1, fg: 1, cm: 0, v0: false }], cap, 1);
+        let r = run_jobs(&[Job { font_hex: font, gid: 1, fg: 1, cm: 0, v0: false, mx: false }], cap, 1);
         let head = r[0].split(' ').next().unwrap_or("").to_string();
         s.count(&format!("glyphchain-depth-40:result:{head}"));
         s.oracle(
